@@ -633,7 +633,26 @@ def adjacent (all : List Ev) : List Ev → Bool
   | _ :: rest => adjacent all rest
   | [] => true
 
-def ok (t : Trace) : Bool := adjacent t.ev t.ev
+/-- the same adjacency as an automaton over the actor's events (the form the invariant proof uses):
+    `tellResult m` / `replySent m` occur only immediately after the handler of `m` has returned, at most one
+    of them, and handlers do not overlap -/
+inductive Ph | idle | inH (m : Nat) | ended (m : Nat)
+  deriving DecidableEq, Repr
+
+def step (ph : Ph) : Ev → Option Ph
+  | .handlerStart m => match ph with | .inH _ => none | _ => some (.inH m)
+  | .handlerEnd m .ok => if ph = .inH m then some (.ended m) else none
+  | .handlerEnd m .panic => if ph = .inH m then some .idle else none
+  | .tellResult m => if ph = .ended m then some .idle else none
+  | .replySent m => if ph = .ended m then some .idle else none
+  -- anything else closes the window in which the result event may come (real traces do not show the reply
+  -- being sent; `adjacent` above checks, with the operation kinds, that a tell's window is never closed this way)
+  | _ => match ph with | .ended _ => some .idle | p => some p
+
+def accepts (ev : List Ev) : Bool :=
+  (ev.foldl (fun (st : Option Ph) e => st.bind (fun ph => step ph e)) (some .idle)).isSome
+
+def ok (t : Trace) : Bool := adjacent t.ev t.ev && accepts t.ev
 end C19
 
 end Rsactor.Monitor
